@@ -54,7 +54,7 @@ def fam_dim_equalities(ctx):
 
     # shapes
     rng = ctx.rng
-    n = 400 if ctx.tier == "quick" else 2500
+    n = 400 if ctx.tier == "quick" else 4000
     pool = [0, 1, 2, 3, "N", "M", None, None]
     cases, meta = [], []
     for k in range(n):
@@ -129,6 +129,8 @@ def _eb_generate(rng, kind):
         x[rng.randrange(len(x))] = rng.choice([1, 2, 3, "M", None])
     if kind == "const":
         t = [d if isinstance(d, int) else (1 if rng.random() < 0.6 else rng.choice([2, 3])) for d in t]
+        if t and rng.random() < 0.12:
+            t[rng.randrange(len(t))] = 0          # a zero-sized target dim is an ordinary size, not a "1"
     e_hon = U.honest_bcast(x, t)
     o_hon = U.honest_bcast(e_hon, y)
     case = {"kind": kind, "x": x, "y": y, "t": t, "e_annot": None, "o_annot": None}
@@ -284,7 +286,7 @@ def fam_expand_binop(ctx):
     from onnxscript.rewriter.rules.common import expand_before_binary_op_rules as rules
 
     rng = ctx.rng
-    n = 420 if ctx.tier == "quick" else 1500
+    n = 600 if ctx.tier == "quick" else 4000
     cap = 40 if ctx.tier == "quick" else 60
     kinds = ["const"] * 4 + ["eout"] * 3 + ["bout"] * 3 + ["none"]
     corpus = [
@@ -727,7 +729,7 @@ def fam_partial_eval(ctx):
     from onnxscript import optimizer
 
     rng = ctx.rng
-    n = 150 if ctx.tier == "quick" else 600
+    n = 260 if ctx.tier == "quick" else 2000
     cap = 30 if ctx.tier == "quick" else 60
     corpus = [
         # repo tests test_reshape_identity_symdim / test_expand_identity_symdim / test_abs_symdim / test_gather_symdim
@@ -826,7 +828,7 @@ def fam_reshape_model(ctx):
     from onnx import TensorProto, helper
 
     rng = ctx.rng
-    n = 120 if ctx.tier == "quick" else 800
+    n = 150 if ctx.tier == "quick" else 1500
     runners = {}
     lits, meta = [], []
     for k in range(n):
@@ -925,7 +927,7 @@ def fam_materialize(ctx):
     from onnxscript.rewriter.rules.common import _materialize_reshape_shape as mod
 
     rng = ctx.rng
-    n = 90 if ctx.tier == "quick" else 400
+    n = 150 if ctx.tier == "quick" else 1500
     cap = 25 if ctx.tier == "quick" else 60
     corpus = [{"o": [0, "N"], "rank": 2, "allowzero": 0}, {"o": ["N", 0], "rank": 2, "allowzero": 1}, {"o": [2, "N", 3], "rank": 3, "allowzero": 0},
               {"o": [2, 0], "rank": 2, "allowzero": 1}, {"o": ["N", "M"], "rank": 2, "allowzero": 0}, {"o": None, "rank": 2, "allowzero": 0},
@@ -1018,7 +1020,7 @@ def fam_collapse_slice(ctx):
     from onnxscript.rewriter.rules.common import _collapse_slices as mod
 
     rng = ctx.rng
-    n = 60 if ctx.tier == "quick" else 300
+    n = 80 if ctx.tier == "quick" else 500
     cap = 20 if ctx.tier == "quick" else 40
     T = TensorProto.INT64
     meta = []
@@ -1055,17 +1057,25 @@ def fam_collapse_slice(ctx):
         r_old, r_new = U.Runner(host), U.Runner(new)
         for b in U.bindings(rng, fr.vars, cap):
             cx = U.concretise(xs, b)
-            feeds = {"x": U.int_data(cx, 6), "st": np.zeros(naxes, dtype=np.int64),
-                     "en": np.array([cx[a] + rng.choice([0, 5]) for a in axes], dtype=np.int64)}
-            stats["bindings"] += 1
-            a_ort, a_ref = r_old.run_ort(feeds), r_old.run_ref(feeds)
-            if a_ort[0] != "ok" or a_ref[0] != "ok":
-                continue
-            stats["executed"] += 1
-            b_ort, b_ref = r_new.run_ort(feeds), r_new.run_ref(feeds)
-            if not (b_ort[0] == "ok" and b_ref[0] == "ok" and U.same_outputs(a_ort[1], b_ort[1]) and U.same_outputs(a_ref[1], b_ref[1])):
-                ctx.violation("C09:collapse-slice:same-shape", f"Slice removed (data {data}, output annotated {out}) but results differ at {b}",
-                              {"family": "collapse-slice", "data": data, "out": out, "axes": axes, "binding": b})
+            ends = [[cx[a] + rng.choice([0, 5]) for a in axes]]
+            if any(out[a] is None and cx[a] >= 1 for a in axes):
+                # an axis whose output size is not annotated may be sliced short without contradicting any annotation
+                ends.append([cx[a] - 1 if (out[a] is None and cx[a] >= 1) else cx[a] for a in axes])
+            failed = False
+            for en in ends:
+                feeds = {"x": U.int_data(cx, 6), "st": np.zeros(naxes, dtype=np.int64), "en": np.array(en, dtype=np.int64)}
+                stats["bindings"] += 1
+                a_ort, a_ref = r_old.run_ort(feeds), r_old.run_ref(feeds)
+                if a_ort[0] != "ok" or a_ref[0] != "ok" or not U.truthful(out, np.asarray(a_ort[1][0]).shape, b):
+                    continue
+                stats["executed"] += 1
+                b_ort, b_ref = r_new.run_ort(feeds), r_new.run_ref(feeds)
+                if not (b_ort[0] == "ok" and b_ref[0] == "ok" and U.same_outputs(a_ort[1], b_ort[1]) and U.same_outputs(a_ref[1], b_ref[1])):
+                    ctx.violation("C09:collapse-slice:same-shape", f"Slice removed (data {data}, output annotated {out}) but results differ at {b}, ends {en}",
+                                  {"family": "collapse-slice", "data": data, "out": out, "axes": axes, "ends": en, "binding": b})
+                    failed = True
+                    break
+            if failed:
                 break
     # the decision of the rule is `_ir_utils.same_shape(data.shape, slice_output.shape)` (steps all 1): second component of shape_agrees
     lits2 = [f"({U.cshape(d)}, {U.cshape(o)}, ({cbool(True)}, {cbool(f)}, {cbool(False)}))" for d, o, st, f in meta if st == 1]
@@ -1084,6 +1094,93 @@ def fam_collapse_slice(ctx):
 
 
 FAMILIES.append(fam_collapse_slice)
+
+
+# ============================================================================= 7. hand-written models, direct oracle only
+def fam_oracle_only(ctx):
+    """Mechanisms named by the property that have no Gallina model here (shape-value propagation through Reshape/Squeeze,
+    Flatten -> Reshape, Size, zero-size Concat operands, SqueezeReshape): original vs optimize() on the runtimes at every binding."""
+    import onnx
+    from onnx import TensorProto, helper, numpy_helper
+
+    from onnxscript import optimizer
+
+    T = TensorProto.INT64
+    vi = helper.make_tensor_value_info
+
+    def c(name, vals):
+        return numpy_helper.from_array(np.array(vals, dtype=np.int64), name)
+
+    def model(nodes, inputs, outs, inits=()):
+        g = helper.make_graph(nodes, "g", inputs, outs, initializer=list(inits))
+        m = helper.make_model(g, opset_imports=[helper.make_opsetid("", OPSET)], ir_version=9)
+        onnx.checker.check_model(m)
+        return m
+
+    N = helper.make_node
+    models = []
+    # shape value forwarded through a rank-changing Reshape, then indexed
+    models.append(("reshape-propagation:gather-from-reshaped-shape-value", {"x": ["N", 3]},
+                   model([N("Shape", ["x"], ["s"]), N("Reshape", ["s", "c12"], ["r"]), N("Gather", ["r", "im1"], ["out"], axis=0)],
+                         [vi("x", T, ["N", 3])], [vi("out", T, [None, None])], [c("c12", [1, 2]), c("im1", [-1])])))
+    models.append(("reshape-propagation:flat", {"x": ["N", 3]},
+                   model([N("Shape", ["x"], ["s"]), N("Reshape", ["s", "cm1"], ["r"]), N("Gather", ["r", "im1"], ["out"], axis=0)],
+                         [vi("x", T, ["N", 3])], [vi("out", T, [None])], [c("cm1", [-1]), c("im1", [-1])])))
+    models.append(("squeeze-propagation", {"x": ["N", 3], "y": ["M"]},
+                   model([N("Shape", ["x"], ["s"], start=0, end=1), N("Squeeze", ["s"], ["q"]), N("Shape", ["y"], ["t"]), N("Squeeze", ["t"], ["u"]),
+                          N("Add", ["q", "u"], ["a"]), N("Reshape", ["a", "cm1"], ["v"]), N("Expand", ["w", "v"], ["out"])],
+                         [vi("x", T, ["N", 3]), vi("y", T, ["M"]), vi("w", T, [1])], [vi("out", T, [None])], [c("cm1", [-1])])))
+    # Flatten -> Reshape with a zero-sized / symbolic leading part
+    for tag, shape, axis in (("flatten-to-reshape:zero-dim-with-inferred-dim", ["N", "M"], 1), ("flatten-to-reshape:zero-dim-with-inferred-dim", [0, "N"], 1),
+                             ("flatten-to-reshape:static-rest", ["N", 3, 4], 1), ("flatten-to-reshape:static-front", [2, "N"], 1),
+                             ("flatten-to-reshape:axis2", [0, "N", 2], 2), ("flatten-to-reshape:axis0", ["N", 2], 0)):
+        models.append((tag, {"x": shape}, model([N("Flatten", ["x"], ["y"], axis=axis), N("Identity", ["y"], ["out"])],
+                                                [vi("x", T, shape)], [vi("out", T, [None, None])])))
+    # Size, Concat with a zero-sized operand, Reshape(Squeeze(x), [-1]) on 1-D x
+    models.append(("size", {"x": ["N", 3]}, model([N("Size", ["x"], ["out"])], [vi("x", T, ["N", 3])], [vi("out", T, [])])))
+    models.append(("size-static", {"x": [2, 0, 3]}, model([N("Size", ["x"], ["out"])], [vi("x", T, [2, 0, 3])], [vi("out", T, [])])))
+    models.append(("concat-zero-operand", {"x": ["N", 0], "y": ["N", 2]},
+                   model([N("Concat", ["x", "y", "x"], ["out"], axis=1)], [vi("x", T, ["N", 0]), vi("y", T, ["N", 2])], [vi("out", T, ["N", None])])))
+    models.append(("concat-symbolic-operand", {"x": ["N", "M"], "y": ["N", 2]},
+                   model([N("Concat", ["x", "y"], ["out"], axis=1)], [vi("x", T, ["N", "M"]), vi("y", T, ["N", 2])], [vi("out", T, ["N", None])])))
+    models.append(("squeeze-reshape-1d", {"x": ["N"]},
+                   model([N("Squeeze", ["x"], ["q"]), N("Reshape", ["q", "cm1"], ["out"])], [vi("x", T, ["N"])], [vi("out", T, [None])], [c("cm1", [-1])])))
+    stats = {"models": len(models), "bindings": 0, "executed": 0, "changed": 0}
+    for tag, shapes, host in models:
+        try:
+            new = optimizer.optimize(host)
+        except Exception as e:  # noqa: BLE001
+            ctx.violation(f"C09:{tag}:optimize-raises", f"optimize() raised {e!r}", {"family": "oracle-only", "tag": tag})
+            continue
+        changed = [n.op_type for n in new.graph.node] != [n.op_type for n in host.graph.node]
+        stats["changed"] += changed
+        names = sorted({d for s_ in shapes.values() for d in s_ if isinstance(d, str)})
+        r_old, r_new = U.Runner(host), U.Runner(new)
+        ctx.case(("oracle-only", tag, changed))
+        for b in U.bindings(ctx.rng, names, 125):
+            feeds = {k: U.int_data(U.concretise(v, b), 3) for k, v in shapes.items()}
+            if "w" in r_old.input_names:
+                feeds["w"] = np.array([5], dtype=np.int64)
+            stats["bindings"] += 1
+            a_ort = r_old.run_ort(feeds)
+            if a_ort[0] != "ok":
+                continue                      # rejected by the original
+            stats["executed"] += 1
+            b_ort = r_new.run_ort(feeds)
+            a_ref, b_ref = r_old.run_ref(feeds), r_new.run_ref(feeds)
+            ok = b_ort[0] == "ok" and U.same_outputs(a_ort[1], b_ort[1])
+            if ok and a_ref[0] == "ok":
+                ok = b_ref[0] == "ok" and U.same_outputs(a_ref[1], b_ref[1])
+            if not ok:
+                ctx.violation(f"C09:{tag}", f"optimize() changed the behaviour of a hand-written model ({tag}) at {b}: "
+                              f"{U.describe(a_ort[1])} vs {U.describe(b_ort[1]) if b_ort[0] == 'ok' else b_ort[1]}",
+                              {"family": "oracle-only", "tag": tag, "binding": b, "model": onnx.helper.printable_graph(host.graph),
+                               "optimized": onnx.helper.printable_graph(new.graph)})
+                break
+    ctx.cover(oracle_only=stats)
+
+
+FAMILIES.append(fam_oracle_only)
 
 
 def replay(doc):
